@@ -54,6 +54,19 @@ CHECKS["C17"] = dict(engine="gateway",
   text="TLC enumerates every history of the gateway decision machine within small bounds and checks Blocked <=> fw and (pattern or d<thr) regardless of marker, refused/hit => no upstream call, hit <=> fresh entry within the cache distance, Invalidate removes exactly the citing entries; the histories are executed on the real AIProxy over real engine indexes (cosine and euclidean, gateway-created and operator-created cache index, prompt/messages shapes, multi-turn decoys, mixed case) and every step is compared.",
   note="Trusted: stub embedder/upstream/rewriter; the refinement position->vector (proved at start-up against the real kernels, >=20% margin); TTL advanced by rewriting created_at; sequential histories only. Built by a sub-agent.", ref="6 C17")
 
+CHECKS["C03"] = dict(engine="aof-codec",
+  technique="TLC on Codec.tla (SpecRT: Parse(Format(cmd))=cmd over the symbol alphabet; SpecDmg: transcription of ReadFrame/resyncAOF/replayAOF over every log of <=3-4 frames x bit flip of each header field or payload symbol / overwritten / deleted range / inserted garbage / truncation / pairs of field damages - Inv_Genuine, Inv_Ungarbled, Inv_Order, Inv_Survive, Inv_Refuse, Inv_Terminates, Inv_Alloc, Inv_Stable) + every TLC case refined to real bytes and run on ReadFrame/ParseCommand and engine.Open with state, second-start, panic/hang and allocation accounting; float32 hex/legacy vector codec bit-exact via test overlay",
+  text="TLC enumerates all commands over the symbol alphabet and all (log, damage) pairs of the listed configurations, checking that the scan applies a subsequence of the appended commands, ungarbled and in order, including every untouched frame, refuses only without a leading magic byte, terminates, respects the cap and is stable; each sampled case is executed on the real code and the engine state must equal the state of the surviving subsequence the spec computed.",
+  note="CRC32 modelled as a perfect hash (values contain no complete well-formed frame). Arbitrary binary content beyond the symbol classes only from seeded random bytes. Logs hold SET/DEL/VCREATE/VADD only. Built by a sub-agent.", ref="6 C03")
+CHECKS["C11"] = dict(engine="paths",
+  technique="TLC on Paths.tla: transcriptions of FindPath (alternating bidirectional BFS, every queue order) and of the scope BFS checked against declarative ValidPath/Dist/Reach over every graph of the bound x every query; TLC enumerates the graphs up to isomorphism and emits the required answer of every query; each graph is built in a real engine with real timestamps and every query is issued to FindPath, VExtractSubgraph, VSearch+GraphQuery, VTraverse/VSearchGraph and judged by the spec predicates",
+  text="Design level: for every directed multigraph up to isomorphism on 4 nodes x 2 relations with <= 5 live edges TLC checks that the bidirectional BFS returns only valid shortest paths, misses none within maxDepth, that the depth-labelled BFS equals Reach, and that both terminate. Code level: the enumerated graphs are executed on the real engine, ~5.6k queries per graph judged against the spec's predicates.",
+  note="Bound: 4 nodes (7 in a hand-made family), 2 relations, no weight/property evolution, no hard deletes. FindPath returning valid shortest paths longer than maxDepth is allowed by the property and counted. Built by a sub-agent.", ref="6 C11")
+CHECKS["C20"] = dict(engine="text-rag",
+  technique="TLC on Split.tla / Compress.tla / Adaptive.tla (transcriptions of the recursive splitter with all built-in strategies, FixedSizeChunker, Compress, expandGraphBFS / expandGreedy / assembleContext; property invariants, loop variants, termination) + every TLC-enumerated case executed on the real code, output compared exactly with the transcription and the property predicates evaluated on the real output; seeded byte-string exploration under a panic/timeout guard on top",
+  text="TLC exhaustively enumerates every (text <= 5/7 symbols, strategy, size 1..5, overlap 0..size+1) case, every token-kind sequence x language tag, and every chunk graph on 2-4 nodes x seeds x depth x cap x budget, checking no-loss, the size+overlap bound, negation/connective preservation, budget, depth, cap and termination; every enumerated case is executed on the real code.",
+  note="Tiny alphabet; nothing is claimed about other characters or longer texts except through the exploration part (reported separately in the evidence, not model checking). Stemmers covered by run-twice determinism + exploration only. Built by a sub-agent.", ref="6 C20")
+
 NOT_YET = {}
 
 def main():
@@ -85,6 +98,9 @@ def main():
             {"name": "kektor-conc", "path": "spec/Conc.tla + spec/Trace_Conc.tla + tools/check_C13.py + harness/cmd/vreplay/conc.go", "serves_properties": ["C13"], "kind_free_text": "trace validation of real concurrent executions (race build)"},
             {"name": "arena-kernels", "path": "spec/Arena.tla + spec/Kernels.tla + tools/check_C18.py + harness/cmd/c18", "serves_properties": ["C18"], "kind_free_text": "TLA+ transcription of arena/compactor and kernels; behaviours replayed on the real code"},
             {"name": "gateway", "path": "spec/Gateway.tla + tools/check_C17.py + harness/cmd/vgateway", "serves_properties": ["C17"], "kind_free_text": "TLA+ decision machine, histories replayed on the real AIProxy"},
+            {"name": "aof-codec", "path": "spec/Codec.tla + tools/check_C03.py + harness/cmd/vcodec", "serves_properties": ["C03"], "kind_free_text": "TLA+ codec/damage model, cases refined to bytes and run on the real recovery"},
+            {"name": "paths", "path": "spec/Paths.tla + tools/check_C11.py + harness/cmd/vpaths", "serves_properties": ["C11"], "kind_free_text": "TLA+ reachability/shortest-path definitions + algorithm transcriptions; graphs replayed on the real engine"},
+            {"name": "text-rag", "path": "spec/Split.tla + spec/Compress.tla + spec/Adaptive.tla + tools/check_C20.py + harness/cmd/c20", "serves_properties": ["C20"], "kind_free_text": "TLA+ transcriptions of splitter/compressor/retriever, every case executed on the real code"},
             {"name": "decay", "path": "spec/Decay.tla + tools/check_C15.py + harness/cmd/c15decay", "serves_properties": ["C15"], "kind_free_text": "TLA+ case analysis, one implementation test per TLC state"},
             {"name": "http-conformance", "path": "spec/Http.tla + tools/check_C19.py + harness/cmd/vhttp", "serves_properties": ["C19"], "kind_free_text": "TLA+ request/FS model, cases replayed on the real server"},
             {"name": "kektor-engine", "path": "spec/Kektor.tla + tools/engine_checks.py + harness/internal/eng", "serves_properties": ["C01", "C04", "C05", "C10", "C12"],
